@@ -6,12 +6,19 @@ use std::path::Path;
 pub mod textlevel;
 pub mod util;
 
+pub mod c01;
+pub mod c02;
 pub mod c03;
+pub mod c05;
 pub mod c06;
 pub mod c07;
+pub mod c08;
+pub mod c09;
 pub mod c10;
 pub mod c11;
 pub mod c12;
+pub mod c13;
+pub mod c14;
 pub mod c17;
 pub mod c18;
 pub mod c19;
@@ -25,12 +32,19 @@ fn go<P: Property>(args: &RunArgs, replay: Option<&Path>, strict: bool) -> i32 {
 
 pub fn dispatch(id: &str, args: &RunArgs, replay: Option<&Path>, strict: bool) -> i32 {
     match id {
+        "C01" => go::<c01::P>(args, replay, strict),
+        "C02" => go::<c02::P>(args, replay, strict),
         "C03" => go::<c03::P>(args, replay, strict),
+        "C05" => go::<c05::P>(args, replay, strict),
         "C06" => go::<c06::P>(args, replay, strict),
         "C07" => go::<c07::P>(args, replay, strict),
+        "C08" => go::<c08::P>(args, replay, strict),
+        "C09" => go::<c09::P>(args, replay, strict),
         "C10" => go::<c10::P>(args, replay, strict),
         "C11" => go::<c11::P>(args, replay, strict),
         "C12" => go::<c12::P>(args, replay, strict),
+        "C13" => go::<c13::P>(args, replay, strict),
+        "C14" => go::<c14::P>(args, replay, strict),
         "C17" => go::<c17::P>(args, replay, strict),
         "C18" => go::<c18::P>(args, replay, strict),
         "C19" => go::<c19::P>(args, replay, strict),
